@@ -202,7 +202,7 @@ def canon(res):
     if "ctor" in res:
         return Err("Other")
     if "err" in res:
-        return Err("Other")
+        return Err("OverflowError") if res["err"] == "OverflowError" else Err("Other")     # a pair size no read() accepts
     if "none" in res:
         return None
     return res["flags"] + [res["pairs"], res["v2"], res["v3"], res["v31"]]
